@@ -73,7 +73,7 @@ func zzQuote(s string, lang syntax.LangVariant) (string, error) { return "'" + s
 //gosmt:stub github.com/go-task/task/v3/internal/filepathext.TryAbsToRel
 func zzTryAbsToRel(abs string) string { return abs }
 
-var zzInitNames = []string{"", "sub.yml", ".yaml", "dir", "x/y.yml"}
+var zzInitNames = []string{"", "sub.yml", ".yaml", "dir", "x/y.yml", "x/.yml"}
 
 func zzInitTarget(pos string) string {
 	switch pos {
@@ -83,6 +83,8 @@ func zzInitTarget(pos string) string {
 		return "/wd/Taskfile.yaml"
 	case "dir":
 		return "/wd/dir/Taskfile.yml"
+	case "x/.yml": // an extension-only name keeps its directory
+		return "/wd/x/Taskfile.yml"
 	}
 	return "/wd/" + pos
 }
@@ -205,12 +207,12 @@ func ZZ_C19_CLI() {
 	npost := 1 + zz.Choose("npost", 2)
 	var post []string
 	for k := 0; k < npost; k++ {
-		post = append(post, zz.Str(fmt.Sprintf("post%d", k), 4, zzCLIAlphabet))
+		post = append(post, zz.Str(fmt.Sprintf("post%d", k), zz.Param("arglen", 4), zzCLIAlphabet))
 	}
 	assign := zz.Bool("assignment")
 	val := ""
 	if assign {
-		val = zz.Str("value", 3, zzCLIAlphabet)
+		val = zz.Str("value", zz.Param("arglen", 4)-1, zzCLIAlphabet)
 	}
 	zzArgv = []string{"show"}
 	if assign {
